@@ -493,6 +493,28 @@ def scale_groups():
         return {"scripts": {}, "steps": steps, "keys": []}
     G["manyfacts"] = [manyfacts(40, 2), manyfacts(70, 34), manyfacts(36, 33)]
     G["manyfacts-big"] = [manyfacts(1100, 1026)]
+    # --- a predicate of several hundred clauses with cuts
+    col = {"color/2": [clause(C("color", A("k%d" % i), A("first")), CUT) for i in range(300)] + [clause(C("color", V(900), A("default")))],
+           "pick/3": [clause(C("pick", V(0), V(1), V(2)), conj_(call(C("color", V(0), V(1))), call(C("color", V(0), V(2)))))],
+           "late/2": [clause(C("late", I(i), A("n"))) for i in range(280)] + [clause(C("late", V(0), A("cut")), CUT), clause(C("late", V(900), A("never")))]}
+    G["manyclauses-cut"] = [one(col, C("pick", A("k0"), V(0), V(1)), 2), one(col, C("pick", A("k299"), V(0), V(1)), 2), one(col, C("color", A("k120"), V(0)), 1),
+                            one(col, C("color", A("zz"), V(0)), 1), one(col, C("color", V(0), V(1)), 2), one(col, C("late", I(5), V(0)), 1), one(col, C("late", I(279), V(0)), 1)]
+    # --- several hundred goals abandoned by cuts / closed early on one engine, then the bounded route
+    cutp = {"item/1": [clause(C("item", I(i))) for i in (1, 2, 3)],
+            "first/1": [clause(C("first", V(0)), conj_(call(C("item", V(0))), CUT))],
+            "pair/2": [clause(C("pair", V(0), V(1)), conj_(call(C("first", V(0))), call(C("item", V(1))), call(C("\\=", V(0), V(1)))))],
+            "ite/1": [clause(C("ite", V(0)), or_(then(call(C("item", V(0))), TRUE), FAIL))],
+            "rep/1": [clause(C("rep", NIL)), clause(C("rep", lst([V(900)], V(0))), conj_(call(C("first", V(1))), call(C("once", C("item", V(2)))), call(C("ite", V(3))), call(C("rep", V(0)))))]}
+    steps = [[{"op": "load", "e": 1, "script": "P", "ow": True}]]
+    for i in range(12):
+        steps.append([{"op": "solve", "e": 1, "r": i + 1, "goal": C("rep", lst([I(0)] * 25)), "qnv": 0, "k": 0}])
+    for i in range(30):
+        steps.append([{"op": "solve", "e": 1, "r": 100 + i, "goal": C("item", V(0)), "qnv": 1, "k": 1}])
+    steps.append([{"op": "solve", "e": 1, "r": 200, "goal": C("first", V(0)), "qnv": 1, "k": 0, "via": {"exc": "Exception"}}])
+    steps.append([{"op": "solve", "e": 1, "r": 201, "goal": C("pair", V(0), V(1)), "qnv": 2, "k": 0, "via": {"exc": "Exception"}}])
+    steps.append([{"op": "solve", "e": 1, "r": 202, "goal": C("item", V(0)), "qnv": 1, "k": 2, "via": {"exc": "KeyboardInterrupt"}}])
+    steps.append([{"op": "solve", "e": 1, "r": 203, "goal": C("pair", V(0), V(1)), "qnv": 2, "k": 0}])
+    G["cuts-then-bounded"] = [{"scripts": {"P": cutp}, "steps": steps, "keys": []}]
     return G
 
 
@@ -566,3 +588,68 @@ def anonymise(scn, rnd, p=0.8):
             ns[key] = ncl
         out["scripts"][name] = ns
     return out
+
+
+def reentered_scenarios(rnd=None, limit=None):
+    """a construct inside the condition of another construct (or inside a negation), entered once per
+    answer of a preceding generator goal, with outcomes that differ between the entries: every
+    combination of a small inner construct over tests on the generator's variable and an outer construct"""
+    X, Y, R = V(0), V(1), V(2)
+    tests = {"t1": [1], "t2": [2], "t12": [1, 2], "t23": [2, 3], "t3": [3]}
+    base = {"g/1": [clause(C("g", I(i))) for i in (1, 2, 3)]}
+    for n, vals in tests.items():
+        base[n + "/1"] = [clause(C(n, I(i))) for i in vals]
+    leaves = [call(C(n, X)) for n in sorted(tests)] + [TRUE, FAIL]
+    inners = [not_(l) for l in leaves[:5]]
+    inners += [or_(then(a, b), c) for a in leaves[:5] for b in leaves for c in leaves if not (b == c)]
+    inners += [then(a, b) for a in leaves[:5] for b in leaves[:5] + [TRUE]]
+    inners += [or_(a, b) for a in leaves[:3] for b in leaves[2:5]]
+    m = lambda s: call(C("=", R, C(s, X)))
+    scns = []
+    for inner in inners:
+        gen_inner = and_(call(C("g", X)), inner)
+        outers = [not_(gen_inner),
+                  or_(then(gen_inner, m("then")), m("else")),
+                  then(gen_inner, m("then")),
+                  and_(gen_inner, m("plain")),
+                  or_(then(not_(gen_inner), m("nthen")), and_(call(C("g", X)), m("nelse"))),
+                  and_(call(C("g", Y)), or_(then(and_(call(C("g", X)), and_(call(C("t12", Y)), inner)), m("then")), m("else")))]
+        for body in outers:
+            script = dict(base)
+            script["t/3"] = [{"h": C("t", X, Y, R), "body": body, "nv": 3}]
+            scns.append({"scripts": {"P": script}, "keys": [],
+                         "steps": [[{"op": "load", "e": 1, "script": "P", "ow": True}],
+                                   [{"op": "solve", "e": 1, "r": 1, "goal": C("t", V(0), V(1), V(2)), "qnv": 3, "k": 0}]]})
+    if rnd is not None and limit and len(scns) > limit:
+        rnd.shuffle(scns)
+        scns = scns[:limit]
+    return scns
+
+
+def many_construct_scenarios():
+    """predicates with many control constructs (twenty and more labels in one compiled function, not starting
+    at the first label of the program): an outer construct whose condition holds a long run of inner
+    constructs followed by a generator, after leading clauses that use constructs of their own"""
+    X, R = V(0), V(1)
+    base = {"none/0": [clause(A("none"), FAIL)], "one/0": [clause(A("one"))], "two/1": [clause(C("two", A("a"))), clause(C("two", A("b")))]}
+    scns = []
+    for npre in (0, 1, 3):
+        for nlead in (0, 1, 2):
+            for n in (8, 10, 11, 12):
+                for ik in ("neg", "ite"):
+                    inner = (lambda: not_(call(A("none")))) if ik == "neg" else (lambda: or_(then(call(A("none")), FAIL), TRUE))
+                    cond = conj_(*([inner() for _ in range(n)] + [call(C("two", X))]))
+                    outers = [or_(then(cond, call(C("=", R, C("then", X)))), call(C("=", R, A("else")))),
+                              and_(not_(cond), call(C("=", R, A("negated")))),
+                              then(cond, call(C("=", R, C("then", X))))]
+                    for oi, outer in enumerate(outers):
+                        script = dict(base)
+                        for i in range(npre):
+                            script["setup%d/0" % i] = [clause(A("setup%d" % i), or_(then(call(A("none")), call(A("one"))), call(A("one"))))]
+                        lead = [{"h": C("check", R), "body": conj_(*([not_(call(A("one")))] + [not_(call(A("none"))) for _ in range(7)] + [call(C("=", R, A("lead%d" % j)))])), "nv": 2}
+                                for j in range(nlead)]
+                        script["check/1"] = lead + [{"h": C("check", R), "body": outer, "nv": 2}, clause(C("check", A("last")))]
+                        scns.append({"scripts": {"P": script}, "keys": [],
+                                     "steps": [[{"op": "load", "e": 1, "script": "P", "ow": True}],
+                                               [{"op": "solve", "e": 1, "r": 1, "goal": C("check", V(0)), "qnv": 1, "k": 0}]]})
+    return scns
